@@ -28,6 +28,11 @@ TERM_ALLOWED = {
 }
 
 
+def show_line(f, l):
+    """Position of a report relative to its function (stable under edits elsewhere in the file)."""
+    return "+%d" % (l - f["l"])
+
+
 def run(chk):
     units = core.library_units()
     fx = chk.facts(units)
@@ -43,6 +48,39 @@ def run(chk):
     r_ent = chk.rule("C20.entry", "entry points (parser, state constructors, result-file readers) found and call-graph closure built over all library units", floor=15)
     for q in roots:
         chk.instance(r_ent, q, sample=q)
+    # constructors that run inside standard-library templates (emplace_back, make_shared, ...) are not resolved callees of
+    # the calling function: add them from the element / template type
+    tok = re.compile(r"[A-Za-z_][A-Za-z0-9_]*(?:::[A-Za-z_][A-Za-z0-9_]*)*")
+    classes = {f["cls"] for f in fx.fns if f.get("cls") and f.get("ctor")}
+    by_short = {}
+    for c_ in classes:
+        parts = c_.split("::")
+        for i_ in range(len(parts)):
+            by_short.setdefault("::".join(parts[i_:]), set()).add(c_)
+
+    def class_tokens(text):
+        inner = text[text.find("<") + 1:] if "<" in text else text
+        out = []
+        for t_ in tok.findall(inner):
+            if t_.startswith("std::") or t_ in ("const", "unsigned", "int", "double", "float", "char", "bool", "long", "size_t"):
+                continue
+            out += sorted(by_short.get(t_, ()))      # an ambiguous short name adds every candidate: over-approximation
+        return out
+    hidden = {}
+    for f in fx.fns:
+        if not f.get("body"):
+            continue
+        extra = set()
+        for n in walk_fn(f):
+            types = []
+            if n["k"] == "MCall" and n.get("m") in ("emplace_back", "emplace", "try_emplace", "emplace_front", "insert_or_assign") and isinstance(n.get("obj"), dict):
+                types = class_tokens((strip(n["obj"]).get("t") or ""))
+            elif n["k"] == "Call" and (n.get("fn") or "").split("<")[0] in ("std::make_shared", "std::make_unique", "std::make_optional") and n.get("targs"):
+                types = class_tokens("<" + n["targs"][0])
+            for t in types:
+                extra.add(t + "::" + t.split("::")[-1])
+        if extra:
+            hidden[f["q"]] = extra
     closure = set()
     work = list(roots)
     while work:
@@ -51,7 +89,7 @@ def run(chk):
             continue
         closure.add(q)
         for f in by_q.get(q, []):
-            for c in f.get("callees", []):
+            for c in list(f.get("callees", [])) + sorted(hidden.get(q, ())):
                 if c not in closure:
                     if c in by_q:
                         work.append(c)
@@ -204,7 +242,40 @@ def run(chk):
             chk.instance(r_sr, key, sample=dict(function=f["q"], reachable_from_entry_points=inside, argument=why))
             if not ok:
                 chk.violation(r_sr, key, "%s: %s - when the replacement contains the search string the loop never ends (%s)" % (f["q"], "; ".join(w for w in why if "not beyond" in w), "reachable from the parse entry points" if inside else "library utility"), f["file"], lp["l"])
+    # ---- C20.cursor: token cursors of the hand-written scanners stay inside their token vector
+    from rules import c20_cursor as cc
+    r_cu = chk.rule("C20.cursor", "token cursors (an index compared with V.size(), used in V[idx] and advanced by the code): every V[idx] is preceded on every path by a test that establishes idx < V.size() since the last advance; where the end is tested with equality the cursor is never advanced from a state that may already be the end", floor=40)
+    n_cursors = 0
+    for f in fx.fns:
+        if not f.get("body") or f["q"] not in closure:
+            continue
+        for idx, cont, eq in cc.local_cursors(f):
+            cur = cc.Cursor(idx, cont)
+            an = cc.Analysis(cur, f, eq)
+            an.nonempty = cc.nonempty_prefix(f["body"], cur)
+            an.run(f["body"], False)
+            n_cursors += 1
+            for kind, l, text, ok in an.instances:
+                chk.instance(r_cu, "%s:%s@%d:%s" % (f["q"], idx, l, kind), sample=dict(function=f["q"], cursor=idx, container=cont, event=kind, expr=text, in_bounds_known=bool(ok), end_tested_with_equality=eq))
+            for kind, l, text in an.reports:
+                chk.violation(r_cu, "%s:%s:%s@%s" % (f["q"], idx, kind, show_line(f, l)), "%s: %s" % (f["q"], text), f["file"], l)
+    by_cls = {}
+    for f in fx.fns:
+        if f.get("body") and f.get("cls") and f["q"] in closure:
+            by_cls.setdefault(f["cls"], []).append(f)
+    for cls, idx, cont, eq, roles, fns in cc.member_cursors(by_cls):
+        n_cursors += 1
+        chk.info(r_cu, "member cursor %s::%s into %s: advance=%s fetch=%s at-end=%s%s" % (cls, idx, cont, sorted(roles["advance"]), sorted(roles["fetch"]), sorted(roles["atend"]), " (end tested with equality)" if eq else ""))
+        for f, an in cc.analyse_member(cls, idx, cont, eq, roles, fns):
+            for kind, l, text, ok in an.instances:
+                chk.instance(r_cu, "%s:%s@%d:%s" % (f["q"], idx, l, kind), sample=dict(function=f["q"], cursor=idx, container=cont, event=kind, expr=text, in_bounds_known=bool(ok), end_tested_with_equality=eq))
+            for kind, l, text in an.reports:
+                chk.violation(r_cu, "%s:%s:%s@%s" % (f["q"], idx, kind, show_line(f, l)), "%s: %s" % (f["q"], text), f["file"], l)
+    chk.extra["cursors_analysed"] = n_cursors
+    if n_cursors < 4:
+        raise core.AnalysisBroken("only %d token cursors found (UDQParser, Action::Parser, Action::Condition, make_udq_tokens are four on the pinned tree)" % n_cursors)
     chk.assumptions += [
+        "C20.cursor: a token fetched at the cursor has type `end` exactly when the cursor is at the end (checked: the fetch returns the end token under its at-end test); predicates P(token.type) are false for `end`",
         "call graph from resolved callee names (overloads merged, every override of a same-named virtual method included): an over-approximation of reachability",
         "memory safety, hangs and undefined behaviour are not analysed",
     ]
